@@ -195,19 +195,21 @@ func CamelCase(name string) string {
 	return sb.String()
 }
 
-// SnakeCase is the oracle's own snake_case: an underscore goes before an
-// upper-case letter that follows a lower-case letter, and before the
-// last letter of an upper-case run that is followed by a lower-case letter
-// (acronym boundary); lower_snake names are returned unchanged.
+// SnakeCase is the oracle's own snake_case: every letter is lower-cased; an
+// underscore goes before an upper-case letter that follows a lower-case letter,
+// and before the last letter of an upper-case run that is followed by a
+// lower-case letter (acronym boundary); a run of underscores counts as one
+// separator. lower_snake names are therefore returned unchanged, and names that
+// mix the styles (max_sessionTTL, foo__bar) are split at every boundary.
 func SnakeCase(name string) string {
-	if strings.Contains(name, "_") || (name[0] >= 'a' && name[0] <= 'z') {
-		return name
-	}
 	isUp := func(b byte) bool { return b >= 'A' && b <= 'Z' }
 	isLow := func(b byte) bool { return b >= 'a' && b <= 'z' }
 	var sb strings.Builder
 	for i := 0; i < len(name); i++ {
 		c := name[i]
+		if c == '_' && i > 0 && name[i-1] == '_' {
+			continue
+		}
 		if isUp(c) {
 			if i > 0 && (isLow(name[i-1]) || (isUp(name[i-1]) && i+1 < len(name) && isLow(name[i+1]))) {
 				sb.WriteByte('_')
